@@ -105,7 +105,19 @@ def step(B, G, nsamp=3):
         rejects("obs+%s rejected" % tag, lambda bad=bad: a + bad, TypeError)
         rejects("%s+obs rejected" % tag, lambda bad=bad: bad + a, TypeError)
         rejects("%s-obs rejected" % tag, lambda bad=bad: bad - a, TypeError)
-    G.twin("twin_rsub", B.scalars((2 - a).apply(None, samples))[0], va[0] - 2)
+    # history: the SAME composite objects evaluated again on the SAME samples tensor after it was advanced in place (what
+    # statistics() does with its chains): the values follow the children's current values, nothing is remembered
+    nodes = [("neg", -a, lambda x, y: -x), ("obs*3", a * 3, lambda x, y: x * 3), ("obs-obs", a - b, lambda x, y: x - y),
+             ("2-obs", 2 - a, lambda x, y: 2 - x), ("obs+obs", a + b, lambda x, y: x + y), ("(obs-obs)*0.5", (a - b) * 0.5, lambda x, y: (x - y) * O.frac(1, 2))]
+    for tag, node, f in nodes:
+        node.apply(None, samples)
+    a.vals, b.vals = B.params("a_later", (nsamp,)), B.params("b_later", (nsamp,))
+    samples.add_(1)
+    for tag, node, f in nodes:
+        out = B.scalars(node.apply(None, samples))
+        for i in range(nsamp):
+            G.eq("re-evaluated %s[%d]" % (tag, i), out[i], f(a.vals[i], b.vals[i]), tol=1e-13)
+    G.twin("twin_rsub", B.scalars((2 - a).apply(None, samples))[0], a.vals[0] - 2)
 
 
 def trees(B, G, depth=3, count=60, nsamp=2, seed=0):
